@@ -32,6 +32,14 @@ CHECKS = {
    text="(A) Model-based state-machine search on a SUB socket (1-3 contexts, queue 4) fed by scripted publishers over a 4-letter alphabet (empty / equal / prefix-related / non-UTF8 topics frequent): Recv must return exactly the model's oldest pending matching publication, time out iff none is pending, never deliver a message pruned by a completed Unsubscribe; Unsubscribe of an absent topic must fail. (B) Real PUB/XPUB x 1-4 SUB x 1-2 contexts over inproc/tcp/ipc: each context receives exactly the matching subsequence of each publisher's stream (END sentinels per publisher make absence decidable), once, in order, byte-identical, and a mutation of a received body is invisible to other contexts.",
    note="After a queue overflow the statement allows losses, so the model then only demands order-preserving delivery of candidates. Queue resizes are outside C06 (C19).",
    technique="stateful property-based testing (rapid) against a reference prefix-matcher/queue model over a virtual transport; generated fan-out topologies with sentinel messages"),
+ "C02": dict(
+   text="Generated concurrent workloads: pattern {pair,xpair,pair1,xpair1,push/pull,xpush/xpull} x accepted queue lengths {0,1,2,16,128} x 1-4 sender goroutines x 1-60 tagged messages x 1-4 PULL peers x {inproc,tcp,ipc}, optionally a peer closing mid-stream. Oracle over the received history: without faults multiset equality (nothing lost/duplicated/invented) and every Send completes; with faults subset and no duplicates; always per-sender, per-connection increasing sequence numbers. PAIR exclusivity: with 1-3 intruding asynchronous dialers the server never has two peers attached, the established conversation stays gap-free and intruder payloads never arrive; after the first peer leaves a waiting dialer is admitted and heard.",
+   note="Goroutine interleavings are sampled by repetition (no schedule control). 'Nothing extra' after the last message is decided by a 150 ms quiet period. Known finding: push/xpush with WRITEQ-LEN=0 never completes Send (excluded from the generator while listed, reproduced by a dedicated probe each run).",
+   technique="property-based testing (rapid) of concurrent workloads with a history invariant (exactly-once, per-connection order), fault injection by closing peers"),
+ "C20": dict(
+   text="macat driven in-process (stdout captured through the verif hook) against harness peers: printing in raw/ascii/quoted/msgpack/no formats for all 11 patterns is decoded by independent decoders and compared with the bytes that crossed the socket (one record per message); sending with --data/--file/--count/--interval is compared with what the peer receives (exact bytes, exact count, nothing more); Duration text parsing (bare integers = seconds, Go syntax, junk rejected); 21 kinds of conflicting/missing option combinations must be rejected with an error and no output while valid controls run.",
+   note="In-process only (the macat/macat main wrapper's exit status is not exercised). --count on request/reply style sockets without an interval is left out (nanocat compatibility: sent once). Known finding: a lone '-' argument panics inside the third-party option parser.",
+   technique="property-based testing (rapid) with independent decoders (round-trip / differential oracle) and generated option combinations"),
 }
 
 ALL = ["C%02d" % i for i in range(1, 21)]
